@@ -90,7 +90,8 @@ FLT_MAX = 3.4028234663852886e38
 WRONG_TYPES = [None, "7", b"7", [1], (1,), {"a": 1}, 1.5, 2.0, complex(1, 0), object]
 FLOAT_VALUES = [0.0, -0.0, 1.5, -2.25, 1e-45, FLT_MAX, -FLT_MAX, 3.4028235677973366e38, 3.5e38, -3.5e38, 1e39, 1e308,
                 1.7976931348623157e308, float("inf"), float("-inf"), float("nan"), 10 ** 400, -(10 ** 400), 7, -3, 2 ** 63,
-                16777217, 0.1]
+                16777217, 0.1, 2 ** 128, -(2 ** 128), 10 ** 39, 2 ** 200, 2 ** 128 - 2 ** 103, 2 ** 128 - 2 ** 104, 2 ** 1023,
+                2 ** 1024 - 2 ** 970]
 
 
 def f32(v):
@@ -234,7 +235,8 @@ def build_table():
         add("ba", "set", None, v, d, rb, f"ba={v!r}"[:50])
     for i in (0, 5, -1):
         for v, d, rb in [(9, ACCEPT, 9), (255, ACCEPT, 255), (256, REFUSE, None), (-1, REFUSE, None), (b"\x05", ACCEPT, 5),
-                         (b"ab", REFUSE, None), ("a", REFUSE, None), (None, REFUSE, None), (1.5, REFUSE, None)]:
+                         (b"ab", REFUSE, None), ("a", REFUSE, None), (None, REFUSE, None), (1.5, REFUSE, None),
+                         (b"", REFUSE, None), (bytearray(), REFUSE, None), (b"abcdef", REFUSE, None), (bytearray(b"\x01\x02"), REFUSE, None)]:
             add("ba", "item", i, v, d, rb, f"ba[{i}]={v!r}")
     for v in (9,):
         add("ba", "item", 6, v, REFUSE, None, "ba[6]=9")
